@@ -30,6 +30,38 @@ mod cat;
 #[allow(dead_code, unused_imports)]
 #[path = "c04_ops/entry.rs"]
 mod entry;
+// C05 catalogue (foreign fields, BigUint)
+#[allow(dead_code, unused_imports)]
+#[path = "c05_ops/attack.rs"]
+mod attack;
+#[allow(dead_code, unused_imports)]
+#[path = "c05_ops/big.rs"]
+mod big;
+#[allow(dead_code, unused_imports)]
+#[path = "c05_ops/cat_big.rs"]
+mod cat_big;
+#[allow(dead_code, unused_imports)]
+#[path = "c05_ops/cat_field.rs"]
+mod cat_field;
+#[allow(dead_code, unused_imports)]
+#[path = "c05_ops/ffield.rs"]
+mod ffield;
+#[allow(dead_code, unused_imports)]
+#[path = "c05_ops/lattice.rs"]
+mod lattice;
+#[allow(dead_code, unused_imports)]
+#[path = "c05_ops/repair.rs"]
+mod repair;
+// C06 catalogue (Jubjub, foreign secp256k1 / BLS12-381)
+#[allow(dead_code, unused_imports)]
+#[path = "c06_ops/cv.rs"]
+mod cv;
+#[allow(dead_code, unused_imports)]
+#[path = "c06_ops/ops.rs"]
+mod ops;
+#[allow(dead_code, unused_imports)]
+#[path = "c06_ops/structure.rs"]
+mod structure;
 
 /// Stdlib relation with several concrete (instance, witness) pairs.
 fn relation_structure<R: Relation>(name: &str, rel: &R, samples: Vec<(R::Instance, R::Witness)>, vk_bytes: bool, rep: &mut Report) {
@@ -189,7 +221,7 @@ fn main() {
     }
     relation_structure("ShaRel", &ShaRel, sha, false, &mut rep);
 
-    // ---- operation catalogues (C04) -------------------------------------------------------------------
+    // ---- operation catalogues (C04, C05, C06) -------------------------------------------------------------------
     let mut part = rep.fork();
     let n_ops = c09_catalogue::run(&ctx, &mut part);
     rep.merge(part);
@@ -204,11 +236,38 @@ mod c09_catalogue {
     use super::*;
 
     pub fn run(ctx: &Ctx, rep: &mut Report) -> usize {
-        let entries = cat::catalogue_for_structure(ctx.tier == Tier::Thorough);
-        let mut n = 0;
-        for (entry, inputs) in entries {
-            structure_check(&entry, &inputs, 8, "C09", rep);
-            n += 1;
+        let thorough = ctx.tier == Tier::Thorough;
+        let per = if thorough { 8 } else { 4 };
+        let mut jobs: Vec<Box<dyn FnOnce(&mut Report) + Send>> = vec![];
+        macro_rules! add {
+            ($entries:expr, $n:expr) => {
+                for (entry, mut inputs) in $entries {
+                    inputs.truncate($n);
+                    jobs.push(Box::new(move |rep: &mut Report| structure_check(&entry, &inputs, 8, "C09", rep)));
+                }
+            };
+        }
+        add!(cat::catalogue_for_structure(thorough), 64);
+        add!(cat_field::catalogue_for_structure::<midnight_curves::k256::Fq>(thorough), per);
+        add!(cat_field::catalogue_for_structure::<midnight_curves::k256::Fp>(thorough), per);
+        add!(cat_field::catalogue_for_structure::<midnight_curves::Fp>(thorough), per);
+        add!(cat_big::catalogue_for_structure(thorough), per);
+        add!(structure::catalogue_for_structure_jubjub(thorough), per);
+        add!(structure::catalogue_for_structure_secp256k1(thorough), per);
+        add!(structure::catalogue_for_structure_bls12_381(thorough), per);
+        let n = jobs.len();
+        use rayon::prelude::*;
+        let forks: Vec<Report> = jobs.iter().map(|_| rep.fork()).collect();
+        let parts: Vec<Report> = jobs
+            .into_par_iter()
+            .zip(forks)
+            .map(|(job, mut part)| {
+                job(&mut part);
+                part
+            })
+            .collect();
+        for p in parts {
+            rep.merge(p);
         }
         n
     }
